@@ -475,4 +475,7 @@ def run(chk):
     # the components seen through the slot are the winner's: the erased / wrapped views forward every method to it
     common.wrapper_family_rule(chk, P, "C20", "emit_core::rng::Rng", 4, synonyms={"fill": ("dispatch_gen",)})
     common.wrapper_family_rule(chk, P, "C20", "emit_core::clock::Clock", 4)
+    if not getattr(chk, "_overlay", None):
+        from . import c04
+        c04.setup_before_begin_rule(chk, P, "C20.R7:setup-before-begin")
     return chk
